@@ -147,7 +147,10 @@ pub fn gen_cfg(t: &mut Tape, name: &str, wild: bool) -> (G, CfgFeatures) {
                         if t.pct(25) && !names[target].starts_with('_') {
                             feats.alias = true;
                             let named = t.pct(60);
-                            r = wrap_alias(r, if named { format!("al{k}") } else { format!("AL{k}") }, named);
+                            // a third of the named aliases reuse the name of ANOTHER visible rule (two rules, one node type)
+                            let others: Vec<&String> = names.iter().enumerate().filter(|(j, n)| *j != target && *j != 0 && !n.starts_with('_')).map(|(_, n)| n).collect();
+                            let value = if named && !others.is_empty() && t.pct(35) { (*t.pick(&others)).clone() } else if named { format!("al{k}") } else { format!("AL{k}") };
+                            r = wrap_alias(r, value, named);
                         } else if t.pct(30) && !names[target].starts_with('_') {
                             feats.field = true;
                             field_id += 1;
